@@ -49,6 +49,7 @@ func checkC16(c *Ctx) {
 	c.ruleAttrPair("X3.pair")
 	c.ruleAttrLossless("A.lossless")
 	c.ruleParamsCompare("X1.params-compare")
+	c.ruleUnsignedTail("X5.unsigned-tail")
 	c.ruleContentValue("A.content-value")
 	// one closure per attribute kept for later must not share the loop variable
 	c.ruleLoopAlias("X6.distinct", func(f *ssa.Function) bool { return strings.Contains(name(f), "pkcs7.") })
@@ -1884,4 +1885,141 @@ func testAndSet(fn *ssa.Function) bool {
 		}
 	}
 	return false
+}
+
+// ---- X5.unsigned-tail: what follows the encrypted digest in a SignerInfo is tolerated
+
+// ruleUnsignedTail: a SignerInfo may carry unauthenticatedAttributes [1] behind the
+// encrypted digest (RFC 3161 time stamps and counter-signatures of signtool /
+// osslsigncode; openssl cms -cades). They are not signed, so nothing needs to be
+// kept of them - but a parser that insists that the SignerInfo ends with the
+// encrypted digest refuses every such signature. Decided on the CFG of the
+// function that reads the encrypted digest: a successful return stays reachable
+// from that read with the true edges of the Empty() tests on the same string removed.
+func (c *Ctx) ruleUnsignedTail(rule string) {
+	fns := c.pkcs7ParserFuncs(rule)
+	if fns == nil {
+		return
+	}
+	what := "elements behind the encrypted digest of a SignerInfo (unauthenticated attributes: time stamps, counter-signatures) are tolerated: the parser does not insist that the SignerInfo ends there"
+	n := 0
+	for _, fn := range fns {
+		for _, b := range fn.Blocks {
+			for _, i := range b.Instrs {
+				for _, r := range c.readsOf(i) {
+					if r.kind() != "OCTET" {
+						continue
+					}
+					// does what was read end up in the signer entry's encrypted digest?
+					isDigest := false
+					for _, o := range r.outs {
+						instrsOf(fn, func(j ssa.Instruction) {
+							st, ok := j.(*ssa.Store)
+							if !ok || !strings.HasSuffix(ir.FieldID(st.Addr), ".signerinfo.EncryptedDigest") {
+								return
+							}
+							v := ir.StripConv(st.Val)
+							if ld, isLd := v.(*ssa.UnOp); isLd && ld.Op == token.MUL && sameCell(ld.X, o) {
+								isDigest = true
+							}
+						})
+						if strings.HasSuffix(ir.FieldID(o), ".signerinfo.EncryptedDigest") {
+							isDigest = true
+						}
+					}
+					// ... or is returned by a helper whose only job is this read (parseEncryptedDigest)
+					if !isDigest && len(acceptingReturnsMode(fn, true)) > 0 && strings.Contains(strings.ToLower(fn.Name()), "digest") && fn.Signature.Results().Len() == 2 {
+						isDigest = true
+					}
+					if !isDigest {
+						continue
+					}
+					n++
+					cut := map[ir.Edge]bool{}
+					for _, ce := range ir.CondEdges(fn) {
+						call, ok := ce.Cond.(*ssa.Call)
+						if !ok || ir.CallID(call) != cbPkg+".String.Empty" || !ce.Truth {
+							continue
+						}
+						args := ir.CallArgs(call)
+						if len(args) == 0 {
+							continue
+						}
+						recv := args[0]
+						if ld, isLd := recv.(*ssa.UnOp); isLd && ld.Op == token.MUL {
+							recv = ld.X
+						}
+						if sameCell(recv, r.recv) {
+							cut[ce.Edge] = true
+						}
+					}
+					seen, _ := ir.Reach(fn, b, cut)
+					ok := false
+					for _, ret := range acceptingReturnsMode(fn, true) {
+						if seen[ret.Block().Index] {
+							ok = true
+						}
+					}
+					c.R.Check(ok, rule, name(fn), "after-encrypted-digest", c.IPos(r.call), what,
+						"every successful return behind the read of the encrypted digest needs the SignerInfo to be empty after it: signatures that carry unauthenticated attributes (a time stamp, a counter-signature) are refused")
+					// the string belongs to the caller: the same question at every call site
+					if p, isP := r.recv.(*ssa.Parameter); isP {
+						idx := -1
+						for k, q := range fn.Params {
+							if q == p {
+								idx = k
+							}
+						}
+						for _, g := range fns {
+							for _, gb := range g.Blocks {
+								for _, gi := range gb.Instrs {
+									call, isC := gi.(*ssa.Call)
+									if !isC || ir.Callee(call) != fn || idx < 0 || idx >= len(call.Call.Args) {
+										continue
+									}
+									arg := call.Call.Args[idx]
+									cut := map[ir.Edge]bool{}
+									for _, ce := range ir.CondEdges(g) {
+										ec, isE := ce.Cond.(*ssa.Call)
+										if !isE || ir.CallID(ec) != cbPkg+".String.Empty" || !ce.Truth {
+											continue
+										}
+										ea := ir.CallArgs(ec)
+										if len(ea) == 0 {
+											continue
+										}
+										recv := ea[0]
+										if ld, isLd := recv.(*ssa.UnOp); isLd && ld.Op == token.MUL {
+											recv = ld.X
+										}
+										if sameCell(recv, arg) {
+											cut[ce.Edge] = true
+										}
+									}
+									if len(cut) == 0 {
+										continue
+									}
+									n++
+									seen, _ := ir.Reach(g, gb, cut)
+									ok := false
+									for _, ret := range acceptingReturnsMode(g, true) {
+										if seen[ret.Block().Index] {
+											ok = true
+										}
+									}
+									c.R.Check(ok, rule, name(g), "after-encrypted-digest:caller", c.IPos(call), what,
+										"every successful return behind the read of the encrypted digest needs the SignerInfo to be empty after it: signatures that carry unauthenticated attributes (a time stamp, a counter-signature) are refused")
+								}
+							}
+						}
+					}
+				}
+			}
+		}
+	}
+	if n == 0 {
+		if root := c.FnOpt("pkcs7.ParsePKCS7"); root != nil {
+			c.R.Infof(rule, name(root), "after-encrypted-digest", c.Pos(root.Pos()), "not decided for this shape: the read of the signer entry's encrypted digest is not identified")
+		}
+	}
 }
